@@ -6,7 +6,10 @@ package main
 // conditions (havoc of a range, memmove) need neither quantifiers nor lambda
 // terms and the same query text is accepted by z3 and cvc5.
 
-import "fmt"
+import (
+	"fmt"
+	"math/big"
+)
 
 type memKind int
 
@@ -38,6 +41,7 @@ type MemCtx struct {
 	next  int
 	cache map[[2]int]*Term
 	rom   func(a *Term) (*Term, bool) // read-only regions (string constants, imported tables)
+	liftDepth int
 }
 
 func NewMemCtx(tb *TB) *MemCtx { return &MemCtx{tb: tb, cache: map[[2]int]*Term{}} }
@@ -127,6 +131,18 @@ func (mc *MemCtx) Read8(m *Mem, a *Term) *Term {
 			return t
 		}
 	}
+	// An address whose offset is an if-then-else over a few alternatives is
+	// read as the if-then-else of the reads: the leaves are then plain
+	// "base + constant" selects, which both the simplifier and the solvers
+	// handle far better than a select at a computed index.
+	if !a.bound {
+		if c, x, y, ok := mc.splitIteAddr(a); ok {
+			mc.liftDepth++
+			r := mc.tb.Ite(c, mc.Read8(m, x), mc.Read8(m, y))
+			mc.liftDepth--
+			return r
+		}
+	}
 	key := [2]int{m.id, a.id}
 	if !a.bound {
 		if t, ok := mc.cache[key]; ok {
@@ -185,4 +201,40 @@ func (mc *MemCtx) ReadLE(m *Mem, a *Term, w int) *Term {
 		}
 	}
 	return r
+}
+
+// iteLeaves counts the leaves of an ite tree (1 for a non-ite term).
+func iteLeaves(t *Term, budget int) int {
+	if t.op != "ite" || budget <= 0 {
+		return 1
+	}
+	l := iteLeaves(t.args[1], budget-1)
+	return l + iteLeaves(t.args[2], budget-l)
+}
+
+// splitIteAddr finds an ite-valued atom in the linear form of address a and
+// returns the condition and the two addresses obtained by choosing a branch.
+func (mc *MemCtx) splitIteAddr(a *Term) (*Term, *Term, *Term, bool) {
+	tb := mc.tb
+	l := tb.toLin(a)
+	for i, at := range l.atoms {
+		if at.op != "ite" {
+			continue
+		}
+		if iteLeaves(at, 20) > 12 {
+			continue
+		}
+		if mc.liftDepth > 3 {
+			continue
+		}
+		rest := lin{w: l.w, c: l.c}
+		rest.atoms = append(append([]*Term{}, l.atoms[:i]...), l.atoms[i+1:]...)
+		rest.coef = append(append([]*big.Int{}, l.coef[:i]...), l.coef[i+1:]...)
+		base := tb.fromLin(rest)
+		k := tb.Const(l.coef[i], l.w)
+		x := tb.Add(base, tb.Mul(at.args[1], k))
+		y := tb.Add(base, tb.Mul(at.args[2], k))
+		return at.args[0], x, y, true
+	}
+	return nil, nil, nil, false
 }
